@@ -30,6 +30,7 @@ COMPILER_REPLAYS = {
     "u_inherent": ["replay/c17/dup_inherent.sh", "replay/c17/overlap_inherent.sh"],
     "u_calllower": ["replay/c11/paren_call.sh", "replay/c11/neg_nullary.sh", "replay/c11/tuple_nested.sh"],
     "u_ceffect": ["replay/c04/go_fn_value.sh"],
+    "u_mls": ["replay/c12/multiline_crlf.sh"],
     "u_patlit": ["replay/c03/run.sh"],
     "u_annot": ["replay/c03/annotations.sh"],
     "u_binop": ["replay/c09/short_circuit.sh"],
@@ -89,7 +90,9 @@ def search(root, prop, rec, f):
     if os.environ.get("VERIF_NO_REPLAY_SEARCH"):
         return None
     if rec.get("module") in COMPILER_REPLAYS:
-        return compiler_replay(root, rec)
+        w = compiler_replay(root, rec)
+        if w or rec.get("module") not in PARSER_UNITS:
+            return w
     if rec.get("module") not in PARSER_UNITS or prop not in ("C04", "C12"):
         return None
     if "result" in _cache:
